@@ -159,7 +159,45 @@ def check_modifiers(ctx, rep, tier):
             suspects.add(p)
     suspects |= set(w_ed)
     rep.analysed['modifier_writers'] = sorted(suspects)
-    for p in sorted(suspects - allowed):
+    # private helpers that are only ever reached from the allowed writers are part of key-event processing
+    callers = {}
+    for g in ctx.facts['fns']:
+        for body in iter_bodies(g):
+            for bb in body['blocks']:
+                t = bb['term']
+                if t['k'] == 'call':
+                    r = (t['fn'].get('fn') or {}).get('resolved') or {}
+                    if r.get('local') and r.get('path'):
+                        callers.setdefault(r['path'], set()).add(g['path'])
+            # closures belong to their parent
+        if g.get('closure_of'):
+            callers.setdefault(g['path'], set()).add(g['closure_of'])
+
+    def public_roots(p):
+        seen, work, roots = set(), [p], set()
+        while work:
+            x = work.pop()
+            if x in seen:
+                continue
+            seen.add(x)
+            fx = ctx.prog.fns.get(x)
+            if fx is None:
+                continue
+            if x in allowed:
+                continue        # reaching an allowed writer ends the search on that chain
+            if fx['vis'] == 'pub' or fx.get('impl_trait'):
+                roots.add(x)
+            for c in callers.get(x, ()):
+                work.append(c)
+        return roots
+    todo = set()
+    for p in suspects - allowed:
+        f = ctx.prog.fns[p]
+        if f.get('derived'):
+            continue
+        todo |= public_roots(p)
+    rep.analysed['modifier_writers_reachable_from_public'] = sorted(todo)
+    for p in sorted(todo):
         f = ctx.prog.fns[p]
         if f.get('derived'):
             continue
